@@ -42,7 +42,7 @@ def certFamily (ss : Settings) (v : Nat) : List Nat :=
 
 /-- suites both policies admit, defined for v and usable with the server's key -/
 def commonSuites (cs ss : Settings) (cred : Cred) (v : Nat) : List Nat :=
-  (filterForCertificate (filterForVersion (certFamily ss v) v) (some cred)).filter (clientSuites cs .cert).contains
+  (certUsable (filterForVersion (certFamily ss v) v) (some cred) v).filter (clientSuites cs .cert).contains
 
 /-- the chain is acceptable to `st` at version v (declarative twin of `_check_certchain_with_settings`) -/
 def certAccepted (st : Settings) (c : Cred) (v : Nat) : Bool :=
@@ -53,16 +53,17 @@ def certAccepted (st : Settings) (c : Cred) (v : Nat) : Bool :=
     decide (3 ≤ v) && st.moreSigSchemes.contains c.certAlg
   else decide (st.minKeySize ≤ c.keyBits) && decide (c.keyBits ≤ st.maxKeySize)
 
-/-- a signature scheme the server can produce with its key under its settings and the client offered
-    exists, and every such scheme is one the client accepts for this chain -/
+/-- TLS ≥ 1.2: a signature scheme the server can produce with its key under its settings and the client
+    offered exists, and every such scheme is one the client accepts for this chain.  Below TLS 1.2 the
+    ServerKeyExchange signature has a fixed form and nothing is negotiated. -/
 def sigShared (cs ss : Settings) (cred : Cred) (v : Nat) : Bool :=
+  decide (v < 3) ||
   match clientSigAlgs cs with
   | none => true
   | some algs =>
     (sigHashesToList ss none (some cred) v).any algs.contains &&
     (sigHashesToList ss none (some cred) v).all fun a =>
-      !algs.contains a || decide (v < 3) ||
-      (sigHashesToList cs none (some cred) (if v > 3 then 4 else 3)).contains a
+      !algs.contains a || (sigHashesToList cs none (some cred) (if v > 3 then 4 else 3)).contains a
 
 /-- the groups the client lists (supported_groups) -/
 def clientGroups (cs : Settings) (cc : ClientCfg) : List Nat := (clientOffer cs cc).groups.getD []
